@@ -552,3 +552,66 @@ pub fn c12_decode_items() {
     assert!((ct == CategoryType::RxPdo) == (w == 51));
     assert!((ct == CategoryType::End) == (w == 0xffff));
 }
+
+// ---- strings: find_string over a well-formed Strings category with symbolic contents -----------
+//@ harness: c12_find_string
+//@ property: C12
+//@ tier: thorough
+//@ unwind: 6
+//@ unwindset: 4Read4read:2; read_exact:2; category0:2; read_chunk:10
+//@ timeout: 3600
+//@ mem_gb: 45
+//@ functions: SubDeviceEeprom::find_string; SubDeviceEeprom::category; EepromRange::read_byte; EepromRange::skip_ahead_bytes; EepromRange::read; heapless::Vec::retain
+//@ bounds: Strings category right at the first category position holding 2 strings of symbolic length 0..=4 and symbolic bytes (incl. NUL and >= 0x80); destination capacity N = 4 (strings of exactly N bytes must be returned); index 1 or 2 (symbolic); 8-byte chunks. Measured 1476 s / 40.8 GB (runs alone)
+//@ assumes: the image is a well-formed strings category (header type 10, count 2, lengths inside the category) - C12 quantifies over well-formed EEPROMs
+//@ outside: more than 2 strings, strings longer than 4 bytes, string indices beyond the table (C13)
+#[kani::proof]
+#[kani::unwind(6)]
+pub fn c12_find_string() {
+    fresh_image();
+    // category header at word 0x40 = byte 0x80: [type lo, type hi, len lo, len hi] then the payload
+    let b = |i: u32| byte_at(0x80 + i);
+    kani::assume(b(0) == 10 && b(1) == 0); // Strings
+    kani::assume(b(2) == 8 && b(3) == 0); // 8 words = 16 bytes of payload
+    kani::assume(b(4) == 2); // two strings
+    let l1 = b(5);
+    kani::assume(l1 <= 4);
+    let l2 = b(6 + u32::from(l1));
+    kani::assume(l2 <= 4);
+    let which: u8 = kani::any();
+    kani::assume(which == 1 || which == 2);
+    let (start, len) = if which == 1 { (6u32, l1) } else { (7 + u32::from(l1), l2) };
+
+    let e = SubDeviceEeprom::new(Img::<8>(0));
+    let r = run_ready(e.find_string::<4>(which));
+    kani::cover!(matches!(&r, Ok(Some(s)) if s.len() == 4));
+    kani::cover!(matches!(&r, Ok(Some(s)) if s.len() == 0));
+    // reference: the stored bytes, NULs dropped, non-ASCII replaced by '?'
+    let mut exp = [0u8; 4];
+    let mut n = 0usize;
+    let mut i = 0u32;
+    while i < 4 {
+        if i < u32::from(len) {
+            let c = b(start + i);
+            if c != 0 {
+                exp[n] = if c < 0x80 { c } else { b'?' };
+                n += 1;
+            }
+        }
+        i += 1;
+    }
+    match r {
+        Ok(Some(s)) => {
+            let got = s.as_bytes();
+            assert!(got.len() == n);
+            let mut i = 0;
+            while i < 4 {
+                if i < n {
+                    assert!(got[i] == exp[i]);
+                }
+                i += 1;
+            }
+        }
+        _ => panic!("a string of a well-formed table that fits the destination was not returned"),
+    }
+}
